@@ -264,6 +264,13 @@ func genC05(out *Out, r *Rng, tier string, n int, shard int) {
 			c.SubjectTypeAs = "none"
 		case x == 2:
 			c.SubjectTypeAs, c.TopTypes, c.OtherType = "none", []string{"VerifiableCredential", c.TypeName, "Extra"}, "Extra"
+		case x == 4 || x == 5:
+			// the subject says what it is; the top-level pair names another type next to VerifiableCredential
+			c.SubjectTypeAs, c.OtherType = "string", "Extra"
+			c.TopTypes = []string{"VerifiableCredential", "Extra"}
+			if x == 5 {
+				c.TopTypes = []string{"Extra", "VerifiableCredential"}
+			}
 		case x == 3 && c.SubjectDID != "":
 			c.SubjectDID = []string{"did:example:123", "did:iden3:polygon:mumbai:x", "did:iden3:readonly:tN4jDinQUdMuJJo6GbVeKPNTPCJ7txyXTWU4T2tJa"}[r.Intn(3)]
 		}
